@@ -30,11 +30,11 @@ class Check:
         self.rule = ""
 
     # ---- Lean
-    def lean(self, modules, theorems, generated=0, extra_targets=()):
+    def lean(self, modules, theorems, generated=0, extra_targets=(), audit_ns=()):
         """Build + audit.  `generated` = number of generated obligations contained in the built
         modules (counted by the extractor) in addition to the listed theorems."""
-        r = C.lean_gate(modules, theorems, extra_targets)
-        self.obligations += len(theorems) + generated
+        r = C.lean_gate(modules, theorems, extra_targets, audit_ns)
+        self.obligations += r["obligations"] + generated
         self.discharged += r["discharged"] + (generated if r["ok"] or not any(
             "lake build failed" in f for f in r["failed"]) else 0)
         self.cov["checker_cmd"] = ("cd lean && lake build " + " ".join(modules) +
